@@ -118,6 +118,11 @@ class CallMixin:
                     raise Unsupported('forall body introduces facts')
                 yield st, V(BOOL, z3.ForAll([bv], body))
                 return
+            if f.id == 're_pmatch':
+                # re_pmatch(pattern, flags, s): compiled_pattern.match(s) is not None
+                v = self.ev1(e.args[2], st)
+                yield st, V(BOOL, self.regex_match_term(e.args[0].value, e.args[1].value, v.t, 'match'))
+                return
             if f.id == 're_match':
                 from .regex import to_z3
                 pat = e.args[0]
